@@ -43,6 +43,9 @@ type inliner struct {
 	// errCont, when set, is the caller's `if err != nil {…}` continuation pushed into every return of the helper
 	// whose error result is not the literal nil (the caller's own check is then dropped)
 	errCont func(resNames []string) string
+	// tailCall: the call is the operand of a `return` whose function has the helper's result types: the helper's
+	// returns become returns of the caller (no result variables, no loop)
+	tailCall bool
 }
 
 type textEdit struct {
@@ -383,6 +386,12 @@ func (il *inliner) inlineText(call *ast.CallExpr, fd *ast.FuncDecl, hp *packages
 	rewriteStmt = func(s ast.Stmt) ast.Stmt {
 		switch x := s.(type) {
 		case *ast.ReturnStmt:
+			if il.tailCall {
+				if len(x.Results) == 0 && len(resNames) > 0 {
+					return mk("return " + strings.Join(resNames, ", "))
+				}
+				return s
+			}
 			switch {
 			case len(x.Results) == 0:
 				if il.errCont != nil && len(resNames) > 0 {
@@ -513,9 +522,11 @@ func (il *inliner) inlineText(call *ast.CallExpr, fd *ast.FuncDecl, hp *packages
 	}
 	var sb strings.Builder
 	for i, t := range resTypes {
+		if il.tailCall && !named {
+			break
+		}
 		fmt.Fprintf(&sb, "var %s %s\n", resNames[i], t)
 	}
-	_ = named
 	// parameters: declare with their types so that untyped constants convert exactly as in a call
 	for i, pn := range paramNames {
 		name := pn
@@ -525,6 +536,18 @@ func (il *inliner) inlineText(call *ast.CallExpr, fd *ast.FuncDecl, hp *packages
 			name += suf
 		}
 		fmt.Fprintf(&sb, "var %s %s = %s\n_ = %s\n", name, paramTypes[i], args[i], name)
+	}
+	if il.tailCall {
+		if named {
+			for _, rn := range resNames {
+				fmt.Fprintf(&sb, "_ = %s\n", rn)
+			}
+		}
+		fmt.Fprintf(&sb, "%s\n", inner)
+		if il.missingImport {
+			return "", nil, false
+		}
+		return sb.String(), resNames, true
 	}
 	for _, rn := range resNames {
 		fmt.Fprintf(&sb, "_ = %s\n", rn)
@@ -596,6 +619,12 @@ func (w *World) BuildNormalForm() map[string][]byte {
 				case *ast.AssignStmt:
 					if len(x.Rhs) == 1 {
 						if ce, ok := x.Rhs[0].(*ast.CallExpr); ok {
+							// x = max(x, e) on integers  ->  { t := e; if t > x { x = t } }   (min alike): the running-maximum
+							// idiom in the branch form the rules read
+							if txt, ok := il.maxUpdate(p, x, ce); ok {
+								add(x, txt)
+								return
+							}
 							if txt, res, ok := tryInline(ce); ok && len(res) == len(x.Lhs) {
 								var lhs []string
 								for _, l := range x.Lhs {
@@ -609,9 +638,31 @@ func (w *World) BuildNormalForm() map[string][]byte {
 				case *ast.ReturnStmt:
 					if len(x.Results) == 1 {
 						if ce, ok := x.Results[0].(*ast.CallExpr); ok {
+							if sig != nil && sameResults(sig, calleeObj(p, ce)) {
+								il.tailCall = true
+								txt, _, ok := tryInline(ce)
+								il.tailCall = false
+								if ok {
+									add(x, "{\n"+txt+"}")
+									return
+								}
+							}
 							if txt, res, ok := tryInline(ce); ok && len(res) > 0 {
 								add(x, "{\n"+txt+"return "+strings.Join(res, ", ")+"\n}")
 								return
+							}
+						}
+						// return a && b  ->  if !(a) { return false }; return b      return a || b  ->  if a { return true }; return b
+						if sig != nil && sig.Results().Len() == 1 {
+							if be, ok := ast.Unparen(x.Results[0]).(*ast.BinaryExpr); ok && (be.Op == token.LAND || be.Op == token.LOR) {
+								if b, ok := sig.Results().At(0).Type().Underlying().(*types.Basic); ok && b.Kind() == types.Bool {
+									if be.Op == token.LAND {
+										add(x, fmt.Sprintf("{\nif !(%s) {\nreturn false\n}\nreturn %s\n}", il.src(be.X), il.src(be.Y)))
+									} else {
+										add(x, fmt.Sprintf("{\nif %s {\nreturn true\n}\nreturn %s\n}", il.src(be.X), il.src(be.Y)))
+									}
+									return
+								}
 							}
 						}
 						// canonical returns
@@ -635,6 +686,19 @@ func (w *World) BuildNormalForm() map[string][]byte {
 						}
 					}
 				case *ast.IfStmt:
+					// if A || B { S }  with S ending in return/panic/continue/break and no else  ->  if A { S }; if B { S }
+					if x.Init == nil && x.Else == nil && endsControl(x.Body) {
+						if ops := lorOperands(x.Cond); len(ops) > 1 {
+							body := il.src(x.Body)
+							il.edits[fname] = append(il.edits[fname], textEdit{off(x.Cond.Pos()), off(x.Cond.End()), "(" + il.src(ops[0]) + ")"})
+							var sb strings.Builder
+							for _, o := range ops[1:] {
+								fmt.Fprintf(&sb, "\nif (%s) %s", il.src(o), body)
+							}
+							il.edits[fname] = append(il.edits[fname], textEdit{off(x.End()), off(x.End()), sb.String()})
+							return
+						}
+					}
 					// if init; cond {…}  with init a helper call  ->  { init'; if cond {…} }
 					if as, ok := x.Init.(*ast.AssignStmt); ok && len(as.Rhs) == 1 {
 						if ce, ok := as.Rhs[0].(*ast.CallExpr); ok {
@@ -784,10 +848,62 @@ func (w *World) BuildNormalForm() map[string][]byte {
 							continue
 						}
 					}
+					// v := a && b ; if v {…} / if !v {…}  with v used nowhere else  ->  if (a && b) {…}
+					if as, ok := s.(*ast.AssignStmt); ok && as.Tok == token.DEFINE && len(as.Lhs) == 1 && len(as.Rhs) == 1 && i+1 < len(list) {
+						if v, ok := as.Lhs[0].(*ast.Ident); ok && v.Name != "_" {
+							if be, ok := ast.Unparen(as.Rhs[0]).(*ast.BinaryExpr); ok && (be.Op == token.LAND || be.Op == token.LOR) {
+								if is, ok := list[i+1].(*ast.IfStmt); ok && is.Init == nil {
+									vo := p.TypesInfo.Defs[v]
+									cond := ast.Unparen(is.Cond)
+									neg := ""
+									if u, ok := cond.(*ast.UnaryExpr); ok && u.Op == token.NOT {
+										cond, neg = ast.Unparen(u.X), "!"
+									}
+									if id, ok := cond.(*ast.Ident); ok && vo != nil && p.TypesInfo.Uses[id] == vo && usesOf(p, fd, vo) == 1 {
+										add(as, "")
+										add(is.Cond, neg+"("+il.src(be)+")")
+										continue
+									}
+								}
+							}
+						}
+					}
 					if is, ok := s.(*ast.IfStmt); ok && is.Else == nil {
 						if as, ok := is.Init.(*ast.AssignStmt); ok && as.Tok == token.DEFINE {
 							if e := lastIsErr(as); e != nil && errCheckCond(p, is.Cond, e) && terminates(is.Body) && tryPushed(as, is, true, is) {
 								continue
+							}
+						}
+					}
+					// a helper call nested in the statement's expression, with nothing impure evaluated before it: hoisted
+					if roots, ok := stmtRoots(s); ok {
+						isHelper := func(ce *ast.CallExpr) bool {
+							hd, _, _ := il.helperDecl(calleeObj(p, ce))
+							if hd == nil || calleeObj(p, ce) == fobj {
+								return false
+							}
+							cs, _ := calleeObj(p, ce).Type().(*types.Signature)
+							return cs != nil && cs.Results().Len() == 1
+						}
+						rootHelper := false
+						for _, re := range roots {
+							e := ast.Unparen(re)
+							if u, ok := e.(*ast.UnaryExpr); ok && u.Op == token.NOT {
+								e = ast.Unparen(u.X)
+							}
+							if ce, ok := e.(*ast.CallExpr); ok {
+								if hd, _, _ := il.helperDecl(calleeObj(p, ce)); hd != nil {
+									rootHelper = true
+								}
+							}
+						}
+						if !rootHelper {
+							if ce := findHoist(p, roots, isHelper); ce != nil {
+								if txt, res, ok := tryInline(ce); ok && len(res) == 1 {
+									il.edits[fname] = append(il.edits[fname], textEdit{off(s.Pos()), off(s.Pos()), txt})
+									add(ce, res[0])
+									continue
+								}
 							}
 						}
 					}
@@ -1245,4 +1361,223 @@ func hasBreakOrFallthrough(sw *ast.SwitchStmt) bool {
 	}
 	walk(sw.Body, false)
 	return found
+}
+
+
+// sameResults: the callee's result types are identical, one by one, to the results of sig.
+func sameResults(sig *types.Signature, callee *types.Func) bool {
+	if callee == nil {
+		return false
+	}
+	cs, ok := callee.Type().(*types.Signature)
+	if !ok || cs.Results().Len() == 0 || cs.Results().Len() != sig.Results().Len() {
+		return false
+	}
+	for i := 0; i < cs.Results().Len(); i++ {
+		if !types.Identical(cs.Results().At(i).Type(), sig.Results().At(i).Type()) {
+			return false
+		}
+	}
+	return true
+}
+
+
+// maxUpdate recognises `x = max(x, e)` / `x = max(e, x)` (and min) with the builtin on an integer variable.
+func (il *inliner) maxUpdate(p *packages.Package, as *ast.AssignStmt, ce *ast.CallExpr) (string, bool) {
+	if as.Tok != token.ASSIGN || len(as.Lhs) != 1 || len(ce.Args) != 2 || ce.Ellipsis.IsValid() {
+		return "", false
+	}
+	fid, ok := ce.Fun.(*ast.Ident)
+	if !ok || (fid.Name != "max" && fid.Name != "min") {
+		return "", false
+	}
+	if _, isBuiltin := p.TypesInfo.Uses[fid].(*types.Builtin); !isBuiltin {
+		return "", false
+	}
+	lhs, ok := as.Lhs[0].(*ast.Ident)
+	if !ok {
+		return "", false
+	}
+	lo := p.TypesInfo.Uses[lhs]
+	if lo == nil {
+		return "", false
+	}
+	if b, ok := lo.Type().Underlying().(*types.Basic); !ok || b.Info()&types.IsInteger == 0 {
+		return "", false
+	}
+	var other ast.Expr
+	for i, a := range ce.Args {
+		if id, ok := ast.Unparen(a).(*ast.Ident); ok && p.TypesInfo.Uses[id] == lo {
+			other = ce.Args[1-i]
+			break
+		}
+	}
+	if other == nil {
+		return "", false
+	}
+	il.counter++
+	t := fmt.Sprintf("upd_inl%d", il.counter)
+	op := ">"
+	if fid.Name == "min" {
+		op = "<"
+	}
+	return fmt.Sprintf("{\nvar %s %s = %s\nif %s %s %s {\n%s = %s\n}\n}", t, il.typeTextOf(lo.Type(), p, as), il.src(other), t, op, lhs.Name, lhs.Name, t), true
+}
+
+func (il *inliner) typeTextOf(t types.Type, p *packages.Package, at ast.Node) string {
+	for _, f := range p.Syntax {
+		if f.Pos() <= at.Pos() && at.Pos() <= f.End() {
+			return il.typeText(t, p, f)
+		}
+	}
+	return types.TypeString(t, func(o *types.Package) string { return o.Name() })
+}
+
+
+// usesOf counts the uses of object o in the function declaration.
+func usesOf(p *packages.Package, fd *ast.FuncDecl, o types.Object) int {
+	n := 0
+	ast.Inspect(fd, func(m ast.Node) bool {
+		if id, ok := m.(*ast.Ident); ok && p.TypesInfo.Uses[id] == o {
+			n++
+		}
+		return true
+	})
+	return n
+}
+
+
+// stmtRoots: the expressions a simple statement evaluates, in order (only for the statement kinds that can be
+// preceded by hoisted code without changing scopes or evaluation order).
+func stmtRoots(s ast.Stmt) ([]ast.Expr, bool) {
+	switch x := s.(type) {
+	case *ast.ExprStmt:
+		return []ast.Expr{x.X}, true
+	case *ast.AssignStmt:
+		for _, l := range x.Lhs {
+			if _, ok := l.(*ast.Ident); !ok {
+				return nil, false
+			}
+		}
+		return x.Rhs, true
+	case *ast.ReturnStmt:
+		return x.Results, len(x.Results) > 0
+	case *ast.IfStmt:
+		if x.Init == nil {
+			return []ast.Expr{x.Cond}, true
+		}
+	}
+	return nil, false
+}
+
+// findHoist returns the first call (in evaluation order) accepted by want such that everything evaluated before it in
+// the statement is free of effects and cannot panic, and that is evaluated unconditionally (not under the right operand
+// of && or ||, not in a function literal).
+func findHoist(p *packages.Package, roots []ast.Expr, want func(*ast.CallExpr) bool) *ast.CallExpr {
+	var found *ast.CallExpr
+	impure := false
+	var walk func(e ast.Expr)
+	walk = func(e ast.Expr) {
+		if found != nil || impure || e == nil {
+			return
+		}
+		switch x := e.(type) {
+		case *ast.Ident, *ast.BasicLit, *ast.FuncLit:
+		case *ast.ParenExpr:
+			walk(x.X)
+		case *ast.SelectorExpr:
+			walk(x.X)
+		case *ast.UnaryExpr:
+			walk(x.X)
+			if x.Op == token.ARROW {
+				impure = true
+			}
+		case *ast.BinaryExpr:
+			walk(x.X)
+			if x.Op == token.LAND || x.Op == token.LOR {
+				impure = true // the right operand is evaluated conditionally
+				return
+			}
+			walk(x.Y)
+			if x.Op == token.QUO || x.Op == token.REM || x.Op == token.SHL || x.Op == token.SHR {
+				impure = true
+			}
+		case *ast.KeyValueExpr:
+			walk(x.Value)
+		case *ast.CompositeLit:
+			for _, el := range x.Elts {
+				walk(el)
+			}
+		case *ast.CallExpr:
+			if tv, ok := p.TypesInfo.Types[x.Fun]; ok && tv.IsType() {
+				for _, a := range x.Args {
+					walk(a)
+				}
+				return
+			}
+			switch f := x.Fun.(type) {
+			case *ast.SelectorExpr:
+				walk(f.X)
+			case *ast.Ident:
+			default:
+				impure = true
+				return
+			}
+			for _, a := range x.Args {
+				walk(a)
+			}
+			if found != nil || impure {
+				return
+			}
+			if want(x) {
+				found = x
+				return
+			}
+			if id, ok := x.Fun.(*ast.Ident); ok {
+				if _, isB := p.TypesInfo.Uses[id].(*types.Builtin); isB && (id.Name == "len" || id.Name == "cap") {
+					return
+				}
+			}
+			impure = true
+		default:
+			impure = true
+		}
+	}
+	for _, r := range roots {
+		walk(r)
+	}
+	return found
+}
+
+
+// lorOperands flattens a || b || c into its operands (nil when the condition is not a disjunction).
+func lorOperands(e ast.Expr) []ast.Expr {
+	be, ok := ast.Unparen(e).(*ast.BinaryExpr)
+	if !ok || be.Op != token.LOR {
+		return nil
+	}
+	var out []ast.Expr
+	var walk func(x ast.Expr)
+	walk = func(x ast.Expr) {
+		if b, ok := ast.Unparen(x).(*ast.BinaryExpr); ok && b.Op == token.LOR {
+			walk(b.X)
+			walk(b.Y)
+			return
+		}
+		out = append(out, x)
+	}
+	walk(be)
+	return out
+}
+
+// endsControl: the block's last statement leaves it (return, panic, continue, break, goto).
+func endsControl(b *ast.BlockStmt) bool {
+	if terminates(b) {
+		return true
+	}
+	if b == nil || len(b.List) == 0 {
+		return false
+	}
+	_, ok := b.List[len(b.List)-1].(*ast.BranchStmt)
+	return ok
 }
